@@ -13,9 +13,10 @@ tvars == <<vars, l, run>>
 Ev == Rec[l]
 Is(name) == l <= Len(Rec) /\ Ev.ev = name
 R0 == [id |-> "none", exp |-> -1, acc |-> 0, over_ok |-> FALSE, short_ok |-> FALSE, ended |-> FALSE]
-TInit == exp = -1 /\ cur = 0 /\ calls = <<>> /\ state = "open" /\ hdr = -1 /\ l = 1 /\ run = R0 /\ TLCSet(1, 1) /\ TLCSet(3, 0)
+TInit == exp = -1 /\ cur = 0 /\ calls = <<>> /\ state = "open" /\ hdr = -1 /\ marker = TRUE /\ header = TRUE /\ l = 1 /\ run = R0 /\ TLCSet(1, 1) /\ TLCSet(3, 0)
 
-Reset == /\ Is("Reset") /\ exp' = Ev.exp /\ cur' = 0 /\ calls' = <<>> /\ state' = "open" /\ hdr' = Ev.exp
+Reset == /\ Is("Reset") /\ exp' = Ev.exp /\ cur' = 0 /\ calls' = <<>> /\ state' = "open" /\ marker' = Ev.marker /\ header' = Ev.header
+         /\ hdr' = (IF Ev.header THEN Ev.exp ELSE -2)
          /\ run' = [R0 EXCEPT !.id = Ev.id, !.exp = Ev.exp]
 \* observations kept for the property-level pass: bytes accepted, an accepted overrun, an accepted short finish
 WriteEv ==
@@ -37,8 +38,8 @@ Viol(name) == PrintT(<<"TVIOL", name, run.id>>) /\ TLCSet(3, TLCGet(3) + 1)
 TNoOverrun    == AtEnd => (~run.over_ok \/ Viol("Overrun"))
 TShortRefused == AtEnd => (~run.short_ok \/ Viol("ShortFinish"))
 \* the header of a finished file with a declared size carries exactly the bytes written
-THeaderExact  == AtEnd => ((~E.finished \/ run.exp = -1 \/ (E.hdr = run.acc /\ E.hdr = run.exp)) \/ Viol("Header"))
-TMarker       == AtEnd => ((~E.finished \/ run.exp # -1 \/ E.hdr = -1) \/ Viol("Header"))
+THeaderExact  == AtEnd => ((~E.finished \/ ~header \/ run.exp = -1 \/ (E.hdr = run.acc /\ E.hdr = run.exp)) \/ Viol("Header"))
+TMarker       == AtEnd => ((~E.finished \/ ~header \/ run.exp # -1 \/ E.hdr = -1) \/ Viol("Header"))
 
 Track == (IF l > TLCGet(1) THEN TLCSet(1, l) ELSE TRUE)
 Accepted ==
